@@ -8,6 +8,8 @@ mkdir -p build evidence replays coq/Gen
 if [ -f translate/main.go ]; then
   (cd translate && $GO build -o ../build/translate . && ../build/translate -repo /repo -out ../coq/Gen -harness ../harness)
 fi
+cp /repo/go.sum harness/go.sum
+(cd harness && $GO build -tags verif -o ../build/harness . && ../build/harness -limits ../coq/Gen/Limits.v)
 (cd coq && coq_makefile -f _CoqProject -o Makefile >/dev/null && timeout 7200 make -j16)
 (cd ocaml && coqc -Q ../coq Sia ../coq/Extract/Extract.v && ocamlfind ocamlopt -O3 -w -a -o ../build/model blake2b.ml model.mli model.ml driver.ml)
 cp /repo/go.sum harness/go.sum
